@@ -248,7 +248,9 @@ class PiecewiseEstimator(BaseEstimator):
         )
         verbose = 1 if self.verbose == "tqdm" else (1 if self.verbose else 0)
 
-        self.mean_estimator_ = clone(self.estimator).fit(X, y, sample_weight)
+        self.mean_estimator_ = clone(self.estimator).fit(
+            X, y, sample_weight=sample_weight
+        )
         nb_classes = (
             None
             if not hasattr(self.mean_estimator_, "classes_")
